@@ -76,9 +76,15 @@ class Store:
                 spec = [self.spec[a][(asg | (1 << var)) if val else (asg & ~(1 << var))] for asg in range(1 << n)]
             else:
                 spec = list(self.spec[a])
-        elif op == 'reimport':
-            nodes = VecObj([e.copyval(x) for x in self.nodes()])
-            nb = e.call('<obdd::Bdd as From<Vec<bdd::BddNode>>>::from', [nodes])
+        elif op in ('reimport', 'serde_reimport'):
+            if op == 'reimport':
+                nodes = VecObj([e.copyval(x) for x in self.nodes()])
+                nb = e.call('<obdd::Bdd as From<Vec<bdd::BddNode>>>::from', [nodes])
+            else:
+                # JSON export + import by the serde derive contract (read from the source) + the documented repair step
+                from .c14 import import_bdd_by_contract
+                nb = import_bdd_by_contract(e, self.bdd)
+                e.call('obdd::Bdd::fix_import', [Ref([nb], 0)])
             oldn = before
             self.bdd = nb; self.r = Ref([nb], 0)
             newn = [(nd.f[0].f[0], nd.f[1].f[0], nd.f[2].f[0]) for nd in self.nodes()]
@@ -86,7 +92,7 @@ class Store:
             self.handles.append(T(0)); self.spec.append([False] * (1 << n))
             if self.check:
                 if len(oldn) != len(newn) or any(not same_scalar(x, y) for p, q in zip(oldn, newn) for x, y in zip(p, q)):
-                    self.violation('reimport-renumbers', 'Bdd::from(nodes) does not reproduce the node list index by index', None)
+                    self.violation('reimport-renumbers', '%s does not reproduce the node list index by index' % op, None)
                 self.check_invariants()
             return len(self.handles) - 1
         else:
